@@ -202,7 +202,8 @@ def _gen_setter(rng, kind, nseq):
         op["n"] = nseq if rng.random() < 0.8 else nseq + rng.choice([-1, 1])
         op["seed"] = rng.randrange(1 << 30)
     elif name == "set_gap_penalty":
-        op["value"] = rng.choice([-5.0, -1, [-10, -1], [-12.5, -0.5], 3.0, [1, -1], [-1, 2], "x", 0])
+        op["value"] = rng.choice([-5.0, -1, [-10, -1], [-12.5, -0.5], 3.0, [1, -1], [-1, 2], "x", 0,
+                                  {"np": "int64", "v": -3}, {"np": "float32", "v": -2.5}, {"np": "int32", "v": 4}])
     elif name == "set_iterations":
         op["consistency"] = rng.choice([None, 0, 2])
         op["refinement"] = rng.choice([None, 1, 100])
@@ -942,6 +943,8 @@ class Sim:
             return app.set_guide_tree, (t,), {}
         if name == "set_gap_penalty":
             v = op["value"]
+            if isinstance(v, dict):  # a real-valued numpy scalar (numbers.Real, but not a Python int/float)
+                v = getattr(np, v["np"])(v["v"])
             return app.set_gap_penalty, (tuple(v) if isinstance(v, list) else v,), {}
         if name == "set_iterations":
             return app.set_iterations, (), {"consistency": op["consistency"], "refinement": op["refinement"]}
@@ -967,6 +970,8 @@ class Sim:
             expect = ValueError
         if name == "set_gap_penalty":
             v = op["value"]
+            if isinstance(v, dict):
+                v = v["v"]
             if isinstance(v, str):
                 expect = TypeError
             elif isinstance(v, list):
@@ -1000,6 +1005,8 @@ class Sim:
             s["tree"] = args[0]
         elif name == "set_gap_penalty":
             v = op["value"]
+            if isinstance(v, dict):
+                v = v["v"]
             s["gap"] = (float(v[0]), float(v[1])) if isinstance(v, list) else (float(v), float(v))
         elif name == "set_iterations":
             if op["consistency"] is not None:
